@@ -13,6 +13,7 @@ Definition obj_ok (w : world) (x : pobj) (i : Z) : Prop :=
 
 Record Inv (w : world) : Prop := mkInv {
   inv_next : 0 <= nextinc w;
+  inv_nodeny : denied w = [];       (* every stat file is readable (wf histories have no Deny event) *)
   inv_nodup : NoDup (map kpid (table w));
   inv_tab : forall k, In k (table w) -> In (kinc k, kpid k, kstart k) (hist w);
   inv_lt : forall i p s, In (i, p, s) (hist w) -> 0 <= i < nextinc w;
@@ -25,6 +26,9 @@ Lemma view_stat w p :
   kv_stat (view_of w) p =
   match lookup (table w) p with Some k => Some (kstart k, kppid k, kzomb k) | None => None end.
 Proof. reflexivity. Qed.
+
+Lemma view_ctime_ok w p : Inv w -> kv_ctime_ok (view_of w) p = true.
+Proof. intros I. unfold view_of; cbn [kv_ctime_ok]. rewrite (inv_nodeny _ I). reflexivity. Qed.
 
 Lemma kexists_view w p :
   kexists (view_of w) p = match lookup (table w) p with Some _ => true | None => false end.
@@ -88,21 +92,21 @@ Proof.
 Qed.
 
 (* ---------------------------------------------------------------- Process(pid) *)
-Lemma new_obj_val w p y : new_obj (view_of w) p = Val y ->
+Lemma new_obj_val w p y : Inv w -> new_obj (view_of w) p = Val y ->
   0 <= p < PID_MAX /\ exists k, lookup (table w) p = Some k /\
   y = {| opid := p; ostart := Some (kstart k); ogone := false; oreused := false; octime := None; ohash := None;
          oshot := O; ocppid := None; ocstat := None; oexit := false |}.
 Proof.
-  unfold new_obj. destruct (Z.ltb_spec p 0); [discriminate|].
+  intros I. unfold new_obj. destruct (Z.ltb_spec p 0); [discriminate|].
   destruct (Z.leb_spec PID_MAX p); [discriminate|].
-  rewrite view_stat. destruct (lookup (table w) p) as [k|]; [|discriminate].
+  rewrite view_stat, (view_ctime_ok w p I). destruct (lookup (table w) p) as [k|]; [|discriminate].
   intros E. inversion E. split; [lia|]. eauto.
 Qed.
 
 Lemma new_obj_ok w p y : Inv w -> new_obj (view_of w) p = Val y ->
   exists i, owner w p = Some i /\ obj_ok w y i /\ opid y = p /\ alive w i = true.
 Proof.
-  intros I H. apply new_obj_val in H as [R [k [L ->]]]. exists (kinc k).
+  intros I H. apply (new_obj_val w p y I) in H as [R [k [L ->]]]. exists (kinc k).
   rewrite owner_lookup, L. split; [reflexivity|].
   pose proof (lookup_some _ _ _ L) as [Hk Ep].
   split; [|split; [reflexivity|apply alive_true; eauto]].
@@ -120,9 +124,9 @@ Lemma new_obj_self w x i : Inv w -> obj_ok w x i ->
   | None => Exc NoSuchProcess
   end.
 Proof.
-  intros _ (_ & _ & _ & _ & R). unfold new_obj.
+  intros I (_ & _ & _ & _ & R). unfold new_obj.
   destruct (Z.ltb_spec (opid x) 0); [lia|]. destruct (Z.leb_spec PID_MAX (opid x)); [lia|].
-  rewrite view_stat. destruct (lookup (table w) (opid x)); reflexivity.
+  rewrite view_stat, (view_ctime_ok w _ I). destruct (lookup (table w) (opid x)); reflexivity.
 Qed.
 
 (* ---------------------------------------------------------------- is_running() *)
